@@ -144,13 +144,20 @@ class BufferedByteReceiveStream(ByteReceiveStream):
                 raise DelimiterNotFound(max_bytes)
 
             # Read more data into the buffer from the socket
+            searched_size = len(self._buffer)
             try:
                 data = await self.receive_stream.receive()
             except EndOfStream as exc:
                 raise IncompleteRead from exc
 
-            # Move the offset forward and add the new data to the buffer
-            offset = max(len(self._buffer) - delimiter_size + 1, 0)
+            # Move the offset past the part of the buffer that was already searched
+            # (the buffer may have been changed while we were waiting) and add the new
+            # data to the buffer
+            if len(self._buffer) >= searched_size:
+                offset = max(searched_size - delimiter_size + 1, 0)
+            else:
+                offset = 0
+
             self._buffer.extend(data)
 
 
